@@ -160,6 +160,7 @@ ApplySet(s, o, hasVal, txt, src) ==
   IN
   IF od.choices # <<>> /\ ~hasVal /\ Defect("ChoiceOnFlagPanics") THEN fail(Err("panic", E))
   ELSE IF od.choices # <<>> /\ hasVal /\ ~InSeq(od.choices, txt) THEN fail(Err("ErrInvalidChoice", OptString(s.d, od)))
+  ELSE IF od.kind \in {"help", "func0"} /\ hasVal THEN fail(Err("ErrNoArgumentForBool", OptString(s.d, od)))   \* a value from an INI entry or the environment
   ELSE IF od.kind = "help" THEN fail(Err("ErrHelp", E))
   ELSE IF od.kind = "func0" THEN
        LET s2 == [s1 EXCEPT !.events = Append(@, [k |-> "call", o |-> o, has |-> FALSE, arg |-> E])] IN
